@@ -31,6 +31,12 @@
  *   temp files with flag 512); cgi_write_request() writes it to the script's stdin pipe (or, not
  *   streaming and the body in one temp file, the temp file itself becomes stdin, as in
  *   cgi_create_env()); the harness reads the other end.   result: cgibody eof=<0|1> pend=<n> out=<hex>
+ * op "h2data <content-length|-1> <body> <frames> <segmentation>": HTTP/2 request body.  One open
+ *   stream; the body is carried by DATA frames "len.pad.end" (pad -1 = not padded, end 1 =
+ *   END_STREAM); the frame byte stream is cut into read chunks of the given sizes (cycled), and
+ *   h2_parse_frames() -> h2_recv_data() runs after each chunk, as after each network read.
+ *   result: h2data state=<open|hcr|closed> len=<reqbody_length> rst=<RST_STREAM sent> goaway=<n>
+ *           rq=<unconsumed bytes> out=<hex of r->reqbody_queue>
  * op "parse <parseopts> <flags> <head>" prints only the parsed request.
  *
  * ops gfcgi / gscgi / guwsgi / gproxy: same line layout, but the real gw_handle_subrequest()
@@ -70,6 +76,7 @@
 #include "sock_addr.h"
 #include "fdevent.h"
 
+#include "h2.c"
 #include "gw_backend.c"
 
 #define plugin_config fcgi_plugin_config
@@ -518,6 +525,99 @@ int main(void) {
         if (0 == strcmp(op, "parse") && ltv_ntok == 4) {
             if (0 == parse_head((unsigned)atoi(ltv_tok[1]), atoi(ltv_tok[2]), ltv_tok[3])) print_parsed();
             fputc('\n', stdout);
+            continue;
+        }
+        if (0 == strcmp(op, "h2data") && ltv_ntok == 5) {
+            /* a connection with one open stream (id 1), as h2_recv_headers() leaves it */
+            static h2con *h2c; static request_st *sr; static chunkqueue *h2wq;
+            if (!h2c) {
+                h2c = ck_calloc(1, sizeof(h2con));
+                sr = ck_calloc(1, sizeof(request_st));
+                chunkqueue_init(&sr->reqbody_queue); chunkqueue_init(&sr->read_queue); chunkqueue_init(&sr->write_queue);
+                h2wq = chunkqueue_init(NULL);
+            }
+            memset(h2c, 0, sizeof(*h2c));
+            h2c->s_initial_window_size = 65535; h2c->s_max_frame_size = 16384;
+            h2c->r[0] = sr; h2c->rused = 1; h2c->h2_cid = 1;
+            con.hx = (hxcon *)h2c;
+            con.read_queue = &r->read_queue;
+            con.write_queue = h2wq;
+            chunkqueue_reset(con.read_queue); chunkqueue_reset(h2wq);
+            chunkqueue_reset(&sr->reqbody_queue);
+            sr->reqbody_queue.bytes_in = sr->reqbody_queue.bytes_out = 0;
+            sr->read_queue.bytes_in = sr->read_queue.bytes_out = 0;
+            sr->con = &con; sr->conf = r->conf; sr->conf.stream_request_body = 0; sr->conf.max_request_size = 0;
+            sr->tmp_buf = r->tmp_buf;
+            sr->http_status = 0; sr->state = CON_STATE_READ_POST; sr->http_version = HTTP_VERSION_2;
+            sr->x.h2.id = 1; sr->x.h2.state = H2_STATE_OPEN; sr->x.h2.rwin = 65536; sr->x.h2.swin = 65535;
+            sr->x.h2.rwin_fudge = 0;
+            r->x.h2.id = 0; r->x.h2.rwin = 262144; r->x.h2.rwin_fudge = 0;
+            sr->reqbody_length = (off_t)atoll(ltv_tok[1]);
+            make_body(ltv_tok[2]);
+            /* build the frame byte stream */
+            buffer *fs = buffer_init();
+            char *save = NULL;
+            for (char *f = strtok_r(ltv_tok[3], ",", &save); f; f = strtok_r(NULL, ",", &save)) {
+                long dl = 0; int pad = -1, end = 0;
+                sscanf(f, "%ld.%d.%d", &dl, &pad, &end);
+                if ((size_t)dl > body_len - body_pos) dl = (long)(body_len - body_pos);
+                const uint32_t flen = (uint32_t)dl + (pad >= 0 ? 1u + (uint32_t)pad : 0u);
+                unsigned char hd[10] = { (unsigned char)(flen >> 16), (unsigned char)(flen >> 8), (unsigned char)flen,
+                                         H2_FTYPE_DATA, (unsigned char)((pad >= 0 ? H2_FLAG_PADDED : 0) | (end ? H2_FLAG_END_STREAM : 0)),
+                                         0, 0, 0, 1, (unsigned char)pad };
+                buffer_append_string_len(fs, (char *)hd, pad >= 0 ? 10 : 9);
+                buffer_append_string_len(fs, (char *)body + body_pos, (size_t)dl);
+                body_pos += (size_t)dl;
+                for (int i = 0; i < pad; ++i) buffer_append_char(fs, (char)0xAA);
+            }
+            /* feed it in read chunks */
+            long seg[64]; int nseg = 0;
+            for (char *g = strtok_r(ltv_tok[4], ",", &save); g && nseg < 64; g = strtok_r(NULL, ",", &save)) seg[nseg++] = atol(g);
+            size_t pos = 0; const size_t total = buffer_clen(fs);
+            for (int i = 0; pos < total; ++i) {
+                size_t n = (nseg && seg[i % nseg] > 0) ? (size_t)seg[i % nseg] : total;
+                if (n > total - pos) n = total - pos;
+                buffer *b = chunkqueue_append_buffer_open_sz(con.read_queue, n);
+                buffer_copy_string_len(b, fs->ptr + pos, n);
+                chunkqueue_append_buffer_commit(con.read_queue);
+                pos += n;
+                if (!h2_parse_frames(&con) && h2c->sent_goaway) break;
+                chunkqueue_remove_finished_chunks(con.read_queue);
+            }
+            /* RST_STREAM frames lighttpd queued for the client */
+            int nrst = 0;
+            {
+                buffer *w = buffer_init();
+                off_t wl = chunkqueue_length(h2wq);
+                if (wl) { char *pw = buffer_extend(w, (size_t)wl); if (chunkqueue_read_data(h2wq, pw, (uint32_t)wl, errh) < 0) wl = 0; }
+                for (off_t o = 0; o + 9 <= wl; ) {
+                    const unsigned char *u = (unsigned char *)w->ptr + o;
+                    const uint32_t l = ((uint32_t)u[0] << 16) | ((uint32_t)u[1] << 8) | u[2];
+                    if (u[3] == H2_FTYPE_RST_STREAM) ++nrst;
+                    o += 9 + l;
+                }
+                buffer_free(w);
+            }
+            buffer_clear(capture);
+            {
+                off_t bl = chunkqueue_length(&sr->reqbody_queue);
+                while (bl > 0) {
+                    uint32_t k = bl > 1048576 ? 1048576 : (uint32_t)bl;
+                    char *pc = buffer_extend(capture, k);
+                    if (chunkqueue_read_data(&sr->reqbody_queue, pc, k, errh) < 0) { fputs("READ-ERROR ", stdout); break; }
+                    bl -= k;
+                }
+            }
+            printf("h2data state=%s len=%lld rst=%d goaway=%d rq=%lld out=",
+                   sr->x.h2.state == H2_STATE_OPEN ? "open" : sr->x.h2.state == H2_STATE_HALF_CLOSED_REMOTE ? "hcr"
+                   : sr->x.h2.state == H2_STATE_CLOSED ? "closed" : "other", (long long)sr->reqbody_length,
+                   nrst, (int)h2c->sent_goaway, (long long)chunkqueue_length(con.read_queue));
+            ltv_puthex(capture->ptr, buffer_clen(capture));
+            fputc('\n', stdout);
+            buffer_free(fs);
+            chunkqueue_reset(con.read_queue); chunkqueue_reset(&sr->reqbody_queue);
+            con.hx = NULL; con.read_queue = NULL; con.write_queue = NULL;
+            r->x.h1.te_chunked = 0; r->x.h1.bytes_written_ckpt = 0; r->x.h1.bytes_read_ckpt = 0;
             continue;
         }
         const int is_gw = (op[0] == 'g');
